@@ -125,7 +125,13 @@ def make(rng, cls):
     if cls == 'Polyface3D':
         if rng.random() < 0.3:
             return Polyface3D.from_box(G.dy(rng.uniform(1, 9)), G.dy(rng.uniform(1, 9)), G.dy(rng.uniform(1, 9)), plane(rng))
-        return prism(rng)
+        pf = prism(rng)
+        if rng.random() < 0.35:
+            # the same solid handed over as a shuffled bag of faces, some of them pointing into the solid
+            fs = [f.flip() if rng.random() < 0.4 else f for f in pf.faces]
+            rng.shuffle(fs)
+            return Polyface3D.from_faces(fs, 0.001)
+        return pf
     if cls == 'Face3D': return face3d(rng, nholes=rng.choice([0, 0, 1, 2]))
     if cls == 'Sphere': return Sphere(P3(G.rpt3(rng)), G.dy(rng.uniform(0.2, 20)))
     if cls == 'Cone': return Cone(P3(G.rpt3(rng)), V3(G.rvec3(rng)), G.dy(rng.uniform(0.1, 1.4)))
